@@ -316,6 +316,8 @@ def r1(ctx):
                 else:
                     ok = (dr, dq) == exp and not unknown
                     why = "advances by %s: %s" % (exp, reason)
+            if not ok and unknown:
+                ok = None  # the advance is computed from data this interpreter does not evaluate (e.g. flags looked up per operator)
             ctx.ob(fi.qual, "consumption:%s(%d)" % (OPNAME[k], k), ok, fi.loc(loop), "%s (%d) %s" % (OPNAME[k], k, why) if ok else "operator %s (%d) advances ref_pos by %s and query_pos by %s%s; expected %s" % (OPNAME[k], k, rr or 0, qq or 0, " (data-dependent update)" if unknown else "", want))
         # N never yields in _iterate_cigar
         if name == "_iterate_cigar":
@@ -357,6 +359,8 @@ def r2(ctx):
         table = dispatch_table(loop, opv, lenv, refv, qv, extra, tables=_op_tables(fi))
         flags = table[9][2]
         ok = "reject" in flags
+        if not ok and any(isinstance(a_, (ast.Assert, ast.Raise)) and opv in {x_.id for x_ in ast.walk(a_ if isinstance(a_, ast.Assert) else (getattr(a_, "parent", a_))) if isinstance(x_, ast.Name)} for a_ in ast.walk(loop)):
+            ok = None  # an assertion / raise inside the loop tests the operator in a way this interpreter does not evaluate (e.g. membership in a table)
         ctx.ob(fi.qual, "unknown-operator-rejected", ok, fi.loc(loop), "an operator code outside 0..8 reaches raise / assert False" if ok else "an unknown operator code falls through the dispatch silently")
     it = ctx.func(VP + "._iterate_cigar")
     ctx.note("P (6) is accepted as non-consuming by _iterate_cigar and _detect_alleles but rejected by cigar_prefix_length with an assertion; P is outside C06's quantifier (S, H, I, D, N, =, X)")
@@ -1043,7 +1047,7 @@ def r12(ctx):
         ctx.ob(fi.qual, "prefix-pair-takes-back-only-consumed-query", None, fi.loc(), "cannot find the loop over (operator, length) in cigar_prefix_length")
         return
     L = u(loops[0].target.elts[1])
-    inside = {id(x) for x in ast.walk(loops[0])}
+    inside = {id(x) for st_ in loops[0].body for x in ast.walk(st_)}  # the body, not the else clause (which runs after the walk)
     try:
         sums = pathfx.summaries(cfg, opaque=("ref_pos", "query_pos"))
     except OverflowError:
